@@ -633,6 +633,20 @@ impl World {
                                 return Err(Execution::Expression(e));
                             }
                         }
+
+                        // the fact and time budgets are also examined while an iteration is
+                        // running, so that a single expensive iteration stops promptly
+                        if new_facts.len() >= limits.max_facts as usize {
+                            self.iterations += index;
+                            return Err(Execution::RunLimit(crate::error::RunLimit::TooManyFacts));
+                        }
+                        if time_limit
+                            .map(|limit| Instant::now() >= limit)
+                            .unwrap_or(false)
+                        {
+                            self.iterations += index;
+                            return Err(Execution::RunLimit(crate::error::RunLimit::Timeout));
+                        }
                     }
                     //println!("new_facts after applying {:?}:\n{:#?}", rule, new_facts);
                 }
